@@ -147,9 +147,17 @@ Proof.
     intros q [<-|[]]. exact Hp. }
   destruct out as [[d n]|].
   - destruct (String.eqb d "" || isdir st d)%bool; [apply W | intros []].
-  - intros H. apply in_app_or in H. destruct H as [H|H]; [|now apply W].
+  - destruct (fexists st (root ++ sf_output_dir s)); [intros []|].
+    intros H. apply in_app_or in H. destruct H as [H|H]; [|now apply W].
     destruct (isdir st (root ++ sf_output_dir s)); [destruct H|]. destruct H as [<-|[]]. simpl.
     split; [now right | intros q []].
+Qed.
+
+Lemma mkdirs_until_shape st ds e : In e (mkdirs_until st ds) -> exists d, e = EMkdir OInitDirs d.
+Proof.
+  induction ds as [|d r IH]; simpl; [intros []|].
+  destruct (fexists st d); [intros []|]. intros H. apply in_app_or in H. destruct H as [H|H]; [|now apply IH].
+  destruct (isdir st d); [destruct H|]. destruct H as [<-|[]]. now exists d.
 Qed.
 
 (* ------------------------------------------------------------------ every effect belongs to an allowed class *)
@@ -172,9 +180,11 @@ Proof.
     unfold init_stages in Hs. destruct Hs as [<-|[<-|[<-|[<-|[]]]]].
     + destruct (init_migrates st' _); [|destruct He]. apply mig_effects_shape in He.
       destruct He as [Ho _]. rewrite Ho. split; reflexivity.
-    + apply in_map_iff in He. destruct He as [d [<- _]]. split; [reflexivity | discriminate].
-    + apply in_map_iff in He. destruct He as [pc [<- _]]. split; [reflexivity | discriminate].
-    + destruct (fget st' _) as [sc|]; [|destruct He]. destruct (fget st' _); [|destruct He].
+    + apply mkdirs_until_shape in He. destruct He as [d ->]. split; [reflexivity | discriminate].
+    + destruct (init_blocked st' _); [destruct He|].
+      apply in_map_iff in He. destruct He as [pc [<- _]]. split; [reflexivity | discriminate].
+    + destruct (init_blocked st' _); [destruct He|].
+      destruct (fget st' _) as [sc|]; [|destruct He]. destruct (fget st' _); [|destruct He].
       destruct (contains "views_file:" sc); [destruct He|]. destruct He as [<-|[]]. split; [reflexivity | discriminate].
 Qed.
 
@@ -235,7 +245,8 @@ Proof.
   unfold report_effects in He. destruct out as [[d0 n]|].
   - destruct (String.eqb d0 "" || isdir st' d0)%bool; [|destruct He].
     apply in_map_iff in He. destruct He as [p [Hp _]]. discriminate Hp.
-  - apply in_app_or in He. destruct He as [He|He].
+  - destruct (fexists st' (root ++ sf_output_dir sf)); [destruct He|].
+    apply in_app_or in He. destruct He as [He|He].
     + destruct (isdir st' (root ++ sf_output_dir sf)); [destruct He|]. destruct He as [He|[]]. now inversion He.
     + apply in_map_iff in He. destruct He as [p [Hp _]]. discriminate Hp.
 Qed.
@@ -381,10 +392,12 @@ Qed.
 (* ------------------------------------------------------------------ init: directories, starter files, views_file line *)
 Definition init_tail (o : oracle) (rd : option string) : list stage :=
   let root := prefix_of rd in
-  [ (fun s2 => map (EMkdir OInitDirs) (filter (fun d => negb (isdir s2 d)) (init_dirs rd)));
-    (fun s3 => map (fun pc => EWrite OInitStarter (fst pc) (snd pc))
+  [ (fun s2 => mkdirs_until s2 (init_dirs rd));
+    (fun s3 => if init_blocked s3 rd then [] else
+               map (fun pc => EWrite OInitStarter (fst pc) (snd pc))
                    (filter (fun pc => negb (fexists s3 (fst pc))) (starters o root)));
-    (fun s4 => match fget s4 (root ++ P_SETTINGS), fget s4 (root ++ P_VIEWS) with
+    (fun s4 => if init_blocked s4 rd then [] else
+               match fget s4 (root ++ P_SETTINGS), fget s4 (root ++ P_VIEWS) with
                | Some sc, Some _ => if contains "views_file:" sc then []
                                     else [EAppend OInitAppend (root ++ P_SETTINGS) VIEWS_SUFFIX]
                | _, _ => []
@@ -409,10 +422,12 @@ Lemma init_tail_touches o rd s st' e q :
   In s (init_tail o rd) -> In e (s st') -> In q (touched e) -> In q (starter_paths (prefix_of rd)).
 Proof.
   intros Hs He Hq. destruct Hs as [<-|[<-|[<-|[]]]].
-  - apply in_map_iff in He. destruct He as [d [<- _]]. destruct Hq.
-  - apply in_map_iff in He. destruct He as [pc [<- Hpc]]. destruct Hq as [<-|[]].
+  - apply mkdirs_until_shape in He. destruct He as [d ->]. destruct Hq.
+  - destruct (init_blocked st' rd); [destruct He|].
+    apply in_map_iff in He. destruct He as [pc [<- Hpc]]. destruct Hq as [<-|[]].
     apply filter_In in Hpc. destruct Hpc as [Hpc _]. rewrite <- (starters_paths o). now apply in_map.
-  - destruct (fget st' (prefix_of rd ++ P_SETTINGS)) as [sc|]; [|destruct He].
+  - destruct (init_blocked st' rd); [destruct He|].
+    destruct (fget st' (prefix_of rd ++ P_SETTINGS)) as [sc|]; [|destruct He].
     destruct (fget st' (prefix_of rd ++ P_VIEWS)); [|destruct He].
     destruct (contains "views_file:" sc); [destruct He|]. destruct He as [<-|[]]. destruct Hq as [<-|[]].
     now left.
@@ -428,10 +443,12 @@ Section InitTail.
   Variable rd : option string.
   Let root := prefix_of rd.
   Variable st1 : state.
-  Let st2 := apply_all (map (EMkdir OInitDirs) (filter (fun d => negb (isdir st1 d)) (init_dirs rd))) st1.
-  Let st3 := apply_all (map (fun pc => EWrite OInitStarter (fst pc) (snd pc))
+  Let st2 := apply_all (mkdirs_until st1 (init_dirs rd)) st1.
+  Let st3 := apply_all (if init_blocked st2 rd then [] else
+                        map (fun pc => EWrite OInitStarter (fst pc) (snd pc))
                             (filter (fun pc => negb (fexists st2 (fst pc))) (starters o root))) st2.
-  Let e4 := match fget st3 (root ++ P_SETTINGS), fget st3 (root ++ P_VIEWS) with
+  Let e4 := if init_blocked st3 rd then [] else
+            match fget st3 (root ++ P_SETTINGS), fget st3 (root ++ P_VIEWS) with
             | Some sc, Some _ => if contains "views_file:" sc then []
                                  else [EAppend OInitAppend (root ++ P_SETTINGS) VIEWS_SUFFIX]
             | _, _ => []
@@ -442,13 +459,15 @@ Section InitTail.
   Proof. unfold init_tail. rewrite !run_stages_cons. reflexivity. Qed.
 
   Lemma tail_st2 x : fget st2 x = fget st1 x.
-  Proof. apply mkdirs_fget. Qed.
+  Proof.
+    apply apply_all_untouched. intros e He. apply mkdirs_until_shape in He. destruct He as [d ->]. intros [].
+  Qed.
 
   (* an existing file is not rewritten by the starter stage *)
   Lemma tail_st3_keep x c : fget st1 x = Some c -> fget st3 x = Some c.
   Proof.
     intros H. unfold st3. rewrite apply_all_untouched; [now rewrite tail_st2|].
-    intros e He. apply in_map_iff in He. destruct He as [pc [<- Hpc]]. apply filter_In in Hpc.
+    intros e He. destruct (init_blocked st2 rd); [destruct He|]. apply in_map_iff in He. destruct He as [pc [<- Hpc]]. apply filter_In in Hpc.
     destruct Hpc as [_ Hpc]. intros [Hx|[]]. simpl in Hx. subst x.
     unfold fexists in Hpc. rewrite tail_st2, H in Hpc. discriminate Hpc.
   Qed.
@@ -456,7 +475,7 @@ Section InitTail.
   Lemma tail_st3_none x : ~ In x (starter_paths root) -> fget st3 x = fget st1 x.
   Proof.
     intros H. unfold st3. rewrite apply_all_untouched; [apply tail_st2|].
-    intros e He. apply in_map_iff in He. destruct He as [pc [<- Hpc]]. apply filter_In in Hpc.
+    intros e He. destruct (init_blocked st2 rd); [destruct He|]. apply in_map_iff in He. destruct He as [pc [<- Hpc]]. apply filter_In in Hpc.
     destruct Hpc as [Hpc _]. intros [Hx|[]]. simpl in Hx. subst x. apply H.
     rewrite <- (starters_paths o). now apply in_map.
   Qed.
@@ -464,6 +483,7 @@ Section InitTail.
   Lemma tail_st4_other x : x <> root ++ P_SETTINGS -> fget st4 x = fget st3 x.
   Proof.
     intros H. unfold st4. apply apply_all_untouched. intros e He. unfold e4 in He.
+    destruct (init_blocked st3 rd); [destruct He|].
     destruct (fget st3 (root ++ P_SETTINGS)) as [sc|]; [|destruct He].
     destruct (fget st3 (root ++ P_VIEWS)); [|destruct He].
     destruct (contains "views_file:" sc); [destruct He|]. destruct He as [<-|[]]. intros [Hx|[]]. now subst x.
@@ -472,7 +492,8 @@ Section InitTail.
   Lemma tail_st4_settings c : fget st3 (root ++ P_SETTINGS) = Some c ->
     exists s, fget st4 (root ++ P_SETTINGS) = Some (c ++ s).
   Proof.
-    intros H. unfold st4, e4. rewrite H.
+    intros H. unfold st4, e4.
+    destruct (init_blocked st3 rd); [exists ""; rewrite sapp_nil_r; exact H|]. rewrite H.
     destruct (fget st3 (root ++ P_VIEWS)); [|exists ""; rewrite sapp_nil_r; exact H].
     destruct (contains "views_file:" c); [exists ""; rewrite sapp_nil_r; exact H|].
     exists VIEWS_SUFFIX. rewrite apply_all_cons. unfold apply_all; cbn [fold_left].
